@@ -633,7 +633,7 @@ def to_field(sch):
             raise Unmodelled("$ref with siblings")
         return ("ref", sch["$ref"][len("#/definitions/"):])
     known = {"type", "minLength", "maxLength", "pattern", "default", "minimum", "maximum", "exclusiveMaximum", "enum", "items",
-             "uniqueItems", "additionalItems", "allOf", "anyOf", "oneOf", "not", "properties", "required",
+             "uniqueItems", "additionalItems", "minItems", "maxItems", "allOf", "anyOf", "oneOf", "not", "properties", "required",
              "additionalProperties"}
     if set(sch) - known:
         raise Unmodelled("keyword %s" % sorted(set(sch) - known))
@@ -665,10 +665,10 @@ def to_field(sch):
             raise Unmodelled("boolean keywords")
         return ("boolean", to_default(sch))
     if t == "array":
-        if set(sch) - {"type", "items", "uniqueItems", "additionalItems", "default"}:
+        if set(sch) - {"type", "items", "uniqueItems", "additionalItems", "minItems", "maxItems", "default"}:
             raise Unmodelled("array keywords")
         items = sch.get("items")
-        flags = nums(sch, ["uniqueItems", "additionalItems"])
+        flags = nums(sch, ["uniqueItems", "additionalItems", "minItems", "maxItems"])
         if isinstance(sch.get("additionalItems"), dict):
             raise Unmodelled("additionalItems schema")
         if items is None:
@@ -1055,6 +1055,10 @@ def exact_field(rnd, depth):
         s = {"type": "array", "items": exact_field(rnd, depth + 1)}
         if rnd.random() < 0.4:
             s["uniqueItems"] = True
+        if rnd.random() < 0.3:
+            s["minItems"] = rnd.randint(1, 2)
+        if rnd.random() < 0.3:
+            s["maxItems"] = rnd.randint(2, 3)
         return s
     if r < 0.80:
         return {"type": "array", "items": [exact_field(rnd, depth + 1) for _ in range(rnd.randint(1, 2))],
@@ -1405,8 +1409,7 @@ def run(rep, tier):
             obs = observe_site(site, r[1])
             probes.append((site, s, lit if lit is not None else r[1], obs))
             rep.count("probe", 1, (site, trigger_of(s, site), obs[0]))
-            rep.stat("probe", "%s:%s" % (site, obs[0] if obs[0] != "val" else ("reads-back" if obs[1] == (
-                "\n    " + s + "\n    " if site == "description" else s) else "reads-other")))
+            rep.stat("probe", "%s:%s" % (site, obs[0] if obs[0] != "val" else ("reads-back" if obs[1] == s else "reads-other")))
             # exec-level clause
             in_dom = probe_in_domain(site, s) or (site in IDENT_SITES and s in KW_SET)
             if in_dom:
